@@ -4,10 +4,12 @@ package main
 
 import (
 	"fmt"
+	"go/ast"
 	"go/constant"
 	"go/token"
 	"go/types"
 	"sort"
+	"strings"
 
 	"golang.org/x/tools/go/ssa"
 )
@@ -2196,8 +2198,16 @@ func ruleOptGated(p *Program, r *Reporter) {
 				if !ok {
 					continue
 				}
-				if ld, ok := ia.X.(*ssa.UnOp); ok && ld.Op == token.MUL && fieldKey(ld.X) == "vm.VM.bytecode" {
-					rewriter[top(fn)] = true
+				// the machine's bytecode, or a program kept in a field of an
+				// optimizer object: an element of a code.Instructions that is not
+				// a buffer the function has just made itself
+				if !isNamed(ia.X.Type(), "code", "Instructions") {
+					continue
+				}
+				if ld, ok := ia.X.(*ssa.UnOp); ok && ld.Op == token.MUL {
+					if _, isField := ld.X.(*ssa.FieldAddr); isField {
+						rewriter[top(fn)] = true
+					}
 				}
 			}
 		}
@@ -2415,4 +2425,559 @@ func switchCarried(p *Program, v ssa.Value, isTest func(ssa.Value) bool, depth i
 		}
 	}
 	return false
+}
+
+// ---------------------------------------------------------------------------
+// R-RUNEINDEX
+
+func init() {
+	register(&Rule{ID: "R-RUNEINDEX", Floor: 1, Run: ruleRuneIndex,
+		Text: "A position that counts characters is not used to count bytes: within a function, a number that is compared with the number of characters of a string (utf8.RuneCountInString, the length of its []rune form) or that indexes the []rune form is a character position of that string; the same number (give or take a constant) never indexes or slices the string itself, which goes by bytes.  After the first multi-byte character the two disagree: `foreach c in \"éab\"` would visit é, a, a.  (Expected count on the unmodified tree: zero; the matcher is run on a built-in positive example.)"})
+}
+
+// runeByteMixups: byte indexings of a string by a value that the function
+// also uses as a character position of the same string.
+func runeByteMixups(fn *ssa.Function) []ssa.Instruction {
+	isString := func(t types.Type) bool {
+		b, ok := t.Underlying().(*types.Basic)
+		return ok && b.Info()&types.IsString != 0
+	}
+	isRuneSlice := func(t types.Type) bool {
+		sl, ok := t.Underlying().(*types.Slice)
+		if !ok {
+			return false
+		}
+		b, ok := sl.Elem().Underlying().(*types.Basic)
+		return ok && b.Kind() == types.Int32
+	}
+	// canonical name of a value: loads of one field of one object are the same thing
+	var canon func(v ssa.Value, depth int) string
+	canon = func(v ssa.Value, depth int) string {
+		if v == nil || depth > 6 {
+			return ""
+		}
+		switch x := v.(type) {
+		case *ssa.UnOp:
+			if x.Op == token.MUL {
+				if fa, ok := x.X.(*ssa.FieldAddr); ok {
+					return fmt.Sprintf("field %d of %s", fa.Field, canon(fa.X, depth+1))
+				}
+				if al, ok := x.X.(*ssa.Alloc); ok {
+					return "local " + al.Name()
+				}
+			}
+		case *ssa.BinOp:
+			if x.Op == token.ADD || x.Op == token.SUB {
+				if _, ok := x.Y.(*ssa.Const); ok {
+					return canon(x.X, depth+1)
+				}
+				if _, ok := x.X.(*ssa.Const); ok && x.Op == token.ADD {
+					return canon(x.Y, depth+1)
+				}
+			}
+		case *ssa.Convert:
+			if b, ok := x.Type().Underlying().(*types.Basic); ok && b.Info()&types.IsInteger != 0 {
+				return canon(x.X, depth+1)
+			}
+		case *ssa.Phi:
+			// a loop counter: itself
+		}
+		return v.Name() + "@" + fmt.Sprint(v.Pos())
+	}
+	// the string a []rune value was made from
+	runesOf := func(v ssa.Value) (ssa.Value, bool) {
+		for i := 0; i < 4; i++ {
+			switch x := v.(type) {
+			case *ssa.Convert:
+				if isRuneSlice(x.Type()) && isString(x.X.Type()) {
+					return x.X, true
+				}
+				return nil, false
+			case *ssa.Slice:
+				v = x.X
+				continue
+			case *ssa.UnOp:
+				if al, ok := x.X.(*ssa.Alloc); ok && x.Op == token.MUL && al.Referrers() != nil {
+					for _, ref := range *al.Referrers() {
+						if st, ok := ref.(*ssa.Store); ok && st.Addr == ssa.Value(al) {
+							v = st.Val
+						}
+					}
+					continue
+				}
+			}
+			break
+		}
+		return nil, false
+	}
+	charPos := map[string]bool{} // canon(string) + "|" + canon(index)
+	mark := func(s, idx ssa.Value) {
+		cs, ci := canon(s, 0), canon(idx, 0)
+		if cs != "" && ci != "" {
+			charPos[cs+"|"+ci] = true
+		}
+	}
+	countOf := func(v ssa.Value) (ssa.Value, bool) {
+		c, ok := v.(*ssa.Call)
+		if !ok {
+			return nil, false
+		}
+		if f := c.Call.StaticCallee(); f != nil && f.String() == "unicode/utf8.RuneCountInString" && len(c.Call.Args) == 1 {
+			return c.Call.Args[0], true
+		}
+		if bi, ok := c.Call.Value.(*ssa.Builtin); ok && bi.Name() == "len" && len(c.Call.Args) == 1 {
+			if s, ok := runesOf(c.Call.Args[0]); ok {
+				return s, true
+			}
+		}
+		return nil, false
+	}
+	for _, b := range fn.Blocks {
+		for _, ins := range b.Instrs {
+			switch x := ins.(type) {
+			case *ssa.BinOp:
+				switch x.Op {
+				case token.LSS, token.LEQ, token.GTR, token.GEQ, token.EQL, token.NEQ:
+					if s, ok := countOf(x.Y); ok {
+						mark(s, x.X)
+					}
+					if s, ok := countOf(x.X); ok {
+						mark(s, x.Y)
+					}
+				}
+			case *ssa.IndexAddr:
+				if s, ok := runesOf(x.X); ok {
+					mark(s, x.Index)
+				}
+			case *ssa.Index:
+				if s, ok := runesOf(x.X); ok {
+					mark(s, x.Index)
+				}
+			}
+		}
+	}
+	if len(charPos) == 0 {
+		return nil
+	}
+	var out []ssa.Instruction
+	for _, b := range fn.Blocks {
+		for _, ins := range b.Instrs {
+			switch x := ins.(type) {
+			case *ssa.Index:
+				if isString(x.X.Type()) && charPos[canon(x.X, 0)+"|"+canon(x.Index, 0)] {
+					out = append(out, ins)
+				}
+			case *ssa.Lookup:
+				if isString(x.X.Type()) && charPos[canon(x.X, 0)+"|"+canon(x.Index, 0)] {
+					out = append(out, ins)
+				}
+			case *ssa.Slice:
+				if isString(x.X.Type()) {
+					for _, bd := range []ssa.Value{x.Low, x.High} {
+						if bd != nil && charPos[canon(x.X, 0)+"|"+canon(bd, 0)] {
+							out = append(out, ins)
+							break
+						}
+					}
+				}
+			}
+		}
+	}
+	return out
+}
+
+const runeIndexExample = `package t
+import "unicode/utf8"
+type str struct {
+	val string
+	off int
+}
+func (s *str) next() (string, bool) {
+	if s.off < utf8.RuneCountInString(s.val) {
+		s.off++
+		if c := s.val[s.off-1]; c < utf8.RuneSelf {
+			return string(rune(c)), true
+		}
+		return string([]rune(s.val)[s.off-1]), true
+	}
+	return "", false
+}
+func (s *str) fine() (string, bool) {
+	if s.off < utf8.RuneCountInString(s.val) {
+		s.off++
+		return string([]rune(s.val)[s.off-1]), true
+	}
+	return "", false
+}
+`
+
+func ruleRuneIndex(p *Program, r *Reporter) {
+	n := 0
+	for _, fn := range p.LibFns {
+		for _, ins := range runeByteMixups(fn) {
+			n++
+			r.Fail(siteKey(p, fn, ins.Pos(), "uses a character position as a byte position"), p.Pos(ins.Pos()), "the string is indexed (by bytes) with a number that the same function treats as a position in characters — it compares it with the number of characters, or indexes the []rune form with it: after a multi-byte character the byte at that position belongs to another character, so `foreach c in \"éab\"` visits é, a, a and an index expression picks the wrong character")
+		}
+	}
+	hitBad, hitGood := -1, -1
+	if sp := buildExample(runeIndexExample); sp != nil {
+		for _, m := range []string{"next", "fine"} {
+			var f *ssa.Function
+			for _, mem := range sp.Members {
+				if tp, ok := mem.(*ssa.Type); ok {
+					if mf := sp.Prog.LookupMethod(types.NewPointer(tp.Type()), sp.Pkg, m); mf != nil {
+						f = mf
+					}
+				}
+			}
+			if f != nil {
+				if m == "next" {
+					hitBad = len(runeByteMixups(f))
+				} else {
+					hitGood = len(runeByteMixups(f))
+				}
+			}
+		}
+	}
+	if hitBad != 1 || hitGood != 0 {
+		r.Undecided("self-test", "-", fmt.Sprintf("the matcher gave %d/%d on its built-in examples (expected 1/0)", hitBad, hitGood))
+	} else {
+		r.OkNT("character positions used as byte positions", "-", fmt.Sprintf("%d found; matcher verified on built-in examples (a cursor used both ways, a cursor used on the []rune form only)", n))
+	}
+}
+
+// ---------------------------------------------------------------------------
+// R-FOLDSPAN
+
+func init() {
+	register(&Rule{ID: "R-FOLDSPAN", Floor: 1, Run: ruleFoldSpan,
+		Text: "A fold overwrites what it consumed and nothing else: in the constant-folding pass (the walker callback that keeps a window of pending constants, and the functions of the machine it calls), every store into the bytecode is a single store at an offset named by an operand taken from the *end* of the window or by the current instruction — no loop of the pass writes over a range of offsets, and the window is never read from its front by a constant index.  With more constants pending than the operator consumes (`host(5, 1 == 1)`, `[1, 2 == 2]`) a range that starts at the first pending constant wipes pushes that are still needed."})
+}
+
+func ruleFoldSpan(p *Program, r *Reporter) {
+	sw, window, info := foldCallback(p)
+	if sw == nil {
+		r.Undecided("folding pass", "-", "cannot find the constant-folding callback")
+		return
+	}
+	vmPk := p.ByPath[Mod+"/vm"]
+	nodes := []ast.Node{sw}
+	seen := map[*ast.FuncDecl]bool{}
+	ast.Inspect(sw, func(n ast.Node) bool {
+		if ce, ok := n.(*ast.CallExpr); ok {
+			if fo, ok := calleeObj(info, ce).(*types.Func); ok && fo.Pkg() != nil && fo.Pkg().Path() == Mod+"/vm" {
+				if fd := funcDeclOf(p, fo); fd != nil && fd.Body != nil && !seen[fd] {
+					seen[fd] = true
+					nodes = append(nodes, fd.Body)
+				}
+			}
+		}
+		return true
+	})
+	isProgram := func(e ast.Expr) bool {
+		tv, ok := info.Types[e]
+		return ok && isNamed(tv.Type, "code", "Instructions")
+	}
+	_ = vmPk
+	n := 0
+	bad := ""
+	var badPos token.Pos
+	for _, nd := range nodes {
+		var loops []ast.Node
+		ast.Inspect(nd, func(x ast.Node) bool {
+			switch y := x.(type) {
+			case *ast.ForStmt, *ast.RangeStmt:
+				loops = append(loops, y)
+			}
+			return true
+		})
+		inLoop := func(pos token.Pos) bool {
+			for _, l := range loops {
+				if l.Pos() <= pos && pos < l.End() {
+					return true
+				}
+			}
+			return false
+		}
+		ast.Inspect(nd, func(x ast.Node) bool {
+			switch y := x.(type) {
+			case *ast.AssignStmt:
+				for _, l := range y.Lhs {
+					ix, ok := ast.Unparen(l).(*ast.IndexExpr)
+					if !ok || !isProgram(ix.X) {
+						continue
+					}
+					n++
+					if inLoop(y.Pos()) && bad == "" {
+						bad, badPos = "a loop of the folding pass writes into the bytecode: it overwrites a range of offsets instead of the operands the fold consumed", y.Pos()
+					}
+				}
+			case *ast.IndexExpr:
+				// the window read from the front
+				if id, ok := ast.Unparen(y.X).(*ast.Ident); ok && window != nil && info.Uses[id] == window {
+					if tv, ok := info.Types[y.Index]; ok && tv.Value != nil && bad == "" {
+						bad, badPos = "the window of pending constants is read at the constant position "+tv.Value.String()+" — from its front: the operands of an operator are the *last* constants pushed", y.Pos()
+					}
+				}
+			}
+			return true
+		})
+	}
+	key := "folding pass/each store into the bytecode is at an operand from the end of the window or at the current instruction"
+	switch {
+	case n == 0:
+		r.Undecided(key, p.Pos(sw.Pos()), "the folding pass makes no store into the bytecode")
+	case bad != "":
+		r.Fail(key, p.Pos(badPos), bad+": with more constants pending than the fold consumes — an argument list, an array literal, a hash literal — pushes that are still needed are wiped, and the optimized program underflows the stack where the unoptimized one works")
+	default:
+		r.OkNT(key, p.Pos(sw.Pos()), fmt.Sprintf("%d store(s) into the bytecode in the pass and its %d helper(s), none in a loop; the window is not read from the front", n, len(nodes)-1))
+	}
+}
+
+// ---------------------------------------------------------------------------
+// R-CONTINUATION
+
+func init() {
+	register(&Rule{ID: "R-CONTINUATION", Floor: 1, Run: ruleContinuation,
+		Text: "A backslash at the end of a line continues the string and means nothing else: in the reader of string literals, the branch taken when a backslash is followed by a line feed goes back to the head of the reading loop without adding a character to the text and without going through the translation of escapes — so the first character of the next line is read like any other character, not as the character after a backslash (`\"one\\<newline>two\"` is `onetwo`, not `one<TAB>wo`)."})
+}
+
+func ruleContinuation(p *Program, r *Reporter) {
+	isCh := func(v ssa.Value) bool {
+		for {
+			if cv, ok := v.(*ssa.Convert); ok {
+				v = cv.X
+				continue
+			}
+			break
+		}
+		ld, ok := v.(*ssa.UnOp)
+		return ok && ld.Op == token.MUL && fieldKey(ld.X) == "lexer.Lexer.ch"
+	}
+	constRune := func(v ssa.Value) (rune, bool) {
+		for {
+			if cv, ok := v.(*ssa.Convert); ok {
+				v = cv.X
+				continue
+			}
+			break
+		}
+		k, ok := v.(*ssa.Const)
+		if !ok || k.Value == nil || k.Value.Kind() != constant.Int {
+			return 0, false
+		}
+		i, exact := constant.Int64Val(k.Value)
+		return rune(i), exact
+	}
+	n := 0
+	for _, fn := range lexerFns(p) {
+		if len(fn.Blocks) == 0 {
+			continue
+		}
+		for _, b := range fn.Blocks {
+			iff, ok := terminator(b).(*ssa.If)
+			if !ok {
+				continue
+			}
+			bo, ok := iff.Cond.(*ssa.BinOp)
+			if !ok || bo.Op != token.EQL {
+				continue
+			}
+			// <something> == '\n' …
+			var k rune
+			var other ssa.Value
+			if c, ok := constRune(bo.Y); ok {
+				k, other = c, bo.X
+			} else if c, ok := constRune(bo.X); ok {
+				k, other = c, bo.Y
+			} else {
+				continue
+			}
+			if k != '\n' {
+				continue
+			}
+			// … the current character or the one after it (a call that hands back a rune)
+			if !isCh(other) {
+				if c, ok := other.(*ssa.Call); !ok || c.Call.StaticCallee() == nil || fnPkg(c.Call.StaticCallee()) == nil || fnPkg(c.Call.StaticCallee()).Pkg.Path() != Mod+"/lexer" {
+					continue
+				}
+			}
+			// … under the branch of a backslash
+			underBackslash := false
+			for d := b; d.Idom() != nil; d = d.Idom() {
+				pi, ok := terminator(d.Idom()).(*ssa.If)
+				if !ok || d.Idom().Succs[0] != d {
+					continue
+				}
+				if pb, ok := pi.Cond.(*ssa.BinOp); ok && pb.Op == token.EQL {
+					if c, ok := constRune(pb.Y); ok && c == '\\' && isCh(pb.X) {
+						underBackslash = true
+					}
+					if c, ok := constRune(pb.X); ok && c == '\\' && isCh(pb.Y) {
+						underBackslash = true
+					}
+				}
+			}
+			if !underBackslash {
+				continue
+			}
+			// the loop this is in
+			var head *ssa.BasicBlock
+			for h := b; h != nil; h = h.Idom() {
+				for _, pd := range h.Preds {
+					if h.Dominates(pd) && (pd == b || blockReaches(b, pd, nil)) {
+						head = h
+					}
+				}
+				if head != nil {
+					break
+				}
+			}
+			if head == nil {
+				continue
+			}
+			n++
+			key := p.FnName(fn) + "/a backslash before a line feed only joins the lines"
+			bad := ""
+			var badPos token.Pos
+			seen := map[*ssa.BasicBlock]bool{}
+			var walk func(x *ssa.BasicBlock)
+			walk = func(x *ssa.BasicBlock) {
+				if seen[x] || x == head || bad != "" {
+					return
+				}
+				seen[x] = true
+				for _, ins := range x.Instrs {
+					switch y := ins.(type) {
+					case *ssa.Store:
+						if fieldKey(y.Addr) == "lexer.Lexer.ch" {
+							bad, badPos = "the current character is rewritten (the translation of escapes)", y.Pos()
+						}
+					case *ssa.BinOp:
+						if bt, ok := y.Type().Underlying().(*types.Basic); ok && bt.Info()&types.IsString != 0 && y.Op == token.ADD {
+							bad, badPos = "a character is added to the text", y.Pos()
+						}
+					}
+				}
+				for _, s := range x.Succs {
+					walk(s)
+				}
+			}
+			walk(b.Succs[0])
+			if bad != "" {
+				r.Fail(key, p.Pos(posOr(badPos, firstPos(b))), "after the line feed has been consumed, and before the loop starts over, "+bad+": the first character of the continued line is treated as the character after a backslash — `\"one\\<newline>two\"` becomes `one<TAB>wo`, a quote there no longer ends the string")
+			} else {
+				r.OkNT(key, p.Pos(firstPos(b)), "the branch returns to the head of the loop without touching the text or the current character")
+			}
+		}
+	}
+	if n == 0 {
+		r.Undecided("line continuation", "-", "no test for a line feed under the branch of a backslash found in the lexer")
+	}
+}
+
+// ---------------------------------------------------------------------------
+// R-STDCONTRACT
+
+func init() {
+	register(&Rule{ID: "R-STDCONTRACT", Floor: 4, Run: ruleStdContract,
+		Text: "Built-ins that are documented by what a library function does are done by that function: trim removes what strings.TrimSpace removes (all Unicode white space, not a hand-picked set), lower and upper are strings.ToLower / strings.ToUpper, split is strings.Split, and replace expands `$1`-style references in the replacement as (*regexp.Regexp).ReplaceAll / ReplaceAllString do.  A sibling of the same family — Trim with a cutset, ReplaceAllLiteral, SplitN — agrees with it on every input the tests use and differs on others."})
+}
+
+func ruleStdContract(p *Program, r *Reporter) {
+	reg := registeredBuiltins(p)
+	type contract struct {
+		need   []string // one of these must be called
+		family string   // prefix of the function family (in the same package / receiver)
+		why    string
+	}
+	table := map[string]contract{
+		"trim":    {[]string{"strings.TrimSpace"}, "strings.Trim", "leading and trailing white space of every kind is removed (\\v, \\f, U+0085, U+00A0, the Unicode spaces), not the four characters the lexer skips"},
+		"lower":   {[]string{"strings.ToLower"}, "strings.To", "the lower-case form as package strings defines it"},
+		"upper":   {[]string{"strings.ToUpper"}, "strings.To", "the upper-case form as package strings defines it"},
+		"split":   {[]string{"strings.Split"}, "strings.Split", "every separator splits, nothing is kept of it, no limit"},
+		"replace": {[]string{"(*regexp.Regexp).ReplaceAll", "(*regexp.Regexp).ReplaceAllString"}, "(*regexp.Regexp).Replace", "`$1`, `${name}` in the replacement stand for what the groups matched"},
+	}
+	var names []string
+	for nm := range table {
+		names = append(names, nm)
+	}
+	sort.Strings(names)
+	for _, nm := range names {
+		fn := reg[nm]
+		if fn == nil {
+			continue
+		}
+		ct := table[nm]
+		called := map[string]token.Pos{}
+		seen := map[*ssa.Function]bool{}
+		var scan func(f *ssa.Function, depth int)
+		scan = func(f *ssa.Function, depth int) {
+			if f == nil || seen[f] || depth > 2 || len(f.Blocks) == 0 {
+				return
+			}
+			seen[f] = true
+			for _, b := range f.Blocks {
+				for _, ins := range b.Instrs {
+					cc := callOf(ins)
+					if cc == nil || cc.StaticCallee() == nil {
+						continue
+					}
+					cal := cc.StaticCallee()
+					if fnPkg(cal) != nil && IsLibPath(fnPkg(cal).Pkg.Path()) {
+						// helpers of the built-ins, not other built-ins
+						if _, isBuiltin := builtinName(reg, cal); !isBuiltin {
+							scan(cal, depth+1)
+						}
+						continue
+					}
+					called[calleeFullName(cc)] = ins.Pos()
+				}
+			}
+			for _, an := range f.AnonFuncs {
+				scan(an, depth)
+			}
+		}
+		scan(fn, 0)
+		key := "built-in " + nm + "/is done by the library function it is documented by"
+		has := false
+		for _, n := range ct.need {
+			if _, ok := called[n]; ok {
+				has = true
+			}
+		}
+		var sibling string
+		var sibPos token.Pos
+		for c, ps := range called {
+			if !strings.HasPrefix(c, ct.family) {
+				continue
+			}
+			isNeed := false
+			for _, n := range ct.need {
+				if c == n {
+					isNeed = true
+				}
+			}
+			if !isNeed && (sibling == "" || c < sibling) {
+				sibling, sibPos = c, ps
+			}
+		}
+		switch {
+		case sibling != "":
+			r.Fail(key, p.Pos(sibPos), fmt.Sprintf("the built-in calls %s, a sibling of %s: %s — the two agree on the inputs the tests use and differ elsewhere", sibling, strings.Join(ct.need, " / "), ct.why))
+		case !has:
+			r.Undecided(key, p.Pos(fn.Pos()), fmt.Sprintf("the built-in does not call %s (nor a sibling of it): whether what it does instead has the documented effect is not decided", strings.Join(ct.need, " / ")))
+		default:
+			r.OkNT(key, p.Pos(fn.Pos()), "calls "+strings.Join(ct.need, " / ")+" and none of its siblings")
+		}
+	}
+}
+
+func builtinName(reg map[string]*ssa.Function, f *ssa.Function) (string, bool) {
+	for n, g := range reg {
+		if g == f {
+			return n, true
+		}
+	}
+	return "", false
 }
